@@ -333,6 +333,10 @@ def replay(w):
     fams = []
     if w.get("fault") == "disconnect":
         fams = [("disconnect", k, 6) for k in range(6)]
+    elif name.startswith("hostile header"):
+        fams = [("hostile_headers",)]
+    elif "ping timeout" in name:
+        fams = [("wsgi_pings",)]
     elif name.startswith("file"):
         fams = [("files", iface)]
     elif name.startswith(("stream", "sse")):
